@@ -262,7 +262,7 @@ BASETYPE = ['Integer32', 'OctetString', 'Integer32', 'Bits', 'ObjectIdentifier',
 def _defval_case(depth, kind, perm, split, defval_toks):
     obj_syntax, tdecls = _chain(depth, kind, perm, split)
     d = m.object_type('x', obj_syntax, m.oid('iso', 3), descr=m.text('d'), defval=defval_toks)
-    target = m.value_decl('tgt', m.oid('iso', 3, 9))
+    target = m.value_decl('tg-t', m.oid('iso', 3, 9))     # hyphenated: the label is looked up by its mapped name
     mods = []
     if split and depth >= 2:
         # the tail of the chain lives in another module and is imported
@@ -358,7 +358,7 @@ def defval_other(depth: int, kind: int, perm: int, split: bool, notation: int, i
         toks.append(('}', '}'))
         want = dict(format='bits')
     else:
-        toks, want = [LC('tgt')], dict(value='(1, 3, 9)', format='oid')
+        toks, want = [LC('tg-t')], dict(value='(1, 3, 9)', format='oid')
     try:
         x = _defval_case(depth, kind, perm, split, toks)
     except error.PySmiError:
